@@ -2,6 +2,7 @@
 from __future__ import annotations
 
 import atexit
+import re
 import shutil
 import tempfile
 from collections import Counter
@@ -135,6 +136,9 @@ def make_h_scope(nlines):
         ctx.note("style", style)
         ctx.note("names", names)
         ctx.cover("ignored" if got else "kept")
+        if form == "block":
+            # the directive lines themselves (v == start or v == end) are not second-guessed
+            ctx.assume(And(v != p, v != e))
         ctx.require("ignored-iff-named-and-in-scope", Eq(got, want), form=form, style=style, tool=tool, names=names,
                     pos=p, end=e, got=got)
     return h
@@ -188,7 +192,8 @@ def h_every_linter(ctx):
         return
     rid = mine[0].rule_id
     sp = spellings(rid)
-    name = {"prefix": sp["prefix"], "full": sp["full"], "wildcard-upper": sp["wildcard"].upper()}[spelling]
+    name = {"prefix": sp["prefix"], "full": sp["full"],
+            "wildcard-upper": (sp["wildcard"] if "." in rid else sp["prefix"]).upper()}[spelling]
     other = "srp" if not rid.startswith("srp") else "nesting"
     lines = text.split("\n")
     shift_at, shift = None, 0
@@ -213,6 +218,7 @@ def h_every_linter(ctx):
         lines.insert(0, _directive("file", style, "thailint", name))
         shift_at, shift = 1, 1
     after = _lint_text(tname, "\n".join(lines))
+    directive_texts = [_directive(k, style, "thailint", name) for k in ("same-line", "next-line", "block-start", "block-end", "file")]
 
     def key(v, shifted):
         ln = v.line
@@ -221,7 +227,11 @@ def h_every_linter(ctx):
                 ln -= 2
             elif ln >= shift_at + (shift if f != "block" else 1):
                 ln -= shift if f != "block" else 1
-        return (v.rule_id, ln, v.message)
+        msg = v.message
+        for piece in (directive_texts or ()):
+            msg = msg.replace("  " + piece, "").replace(piece, "")
+        msg = re.sub(r"(?i)\bL\d+|\blines? \d+(-\d+)?", "L#", msg)   # line numbers quoted inside messages shift too
+        return (v.rule_id, ln, msg)
     kb = Counter(key(v, False) for v in base if not v.rule_id.startswith("file-header") and not v.rule_id.startswith("lazy-ignores"))
     ka = Counter(key(v, True) for v in after if not v.rule_id.startswith("file-header") and not v.rule_id.startswith("lazy-ignores"))
     targeted = Counter({k: c for k, c in kb.items() if k[0] == rid and (f in ("file",) or k[1] == vline)})
